@@ -8,6 +8,34 @@ COMMON = ["the harness module replaces github.com/openconfig/gnmi with /repo's w
           "rapid v1.3.0 generators; every random choice is a function of VERIF_SEED"]
 
 CHECKS = {
+    "C17": dict(
+        engine="targetprop",
+        technique="model-based property testing (rapid): generated sequences of configuration loads against a plain-data reference model, with replay of the recorded handler calls",
+        level_text=("Tens of thousands of generated sequences of 1-12 Config.Load calls (optionally on top of NewConfigWithBase) are executed against the real "
+                    "target.Config with recording Add/Update/Delete handlers and compared, after every load, with a reference model that keeps the last "
+                    "accepted configuration as plain data: Load returns nil iff the configuration is valid and (there is no current configuration or the "
+                    "revision is strictly greater than the current one); a rejected load ran no handler and left Current() unchanged; after an accepted load "
+                    "Current() is the loaded configuration, the handler calls replayed onto the initial set (empty, or the base's targets) yield exactly "
+                    "{name -> (target settings, referenced request body)} of Current(), a target whose settings and referenced request body are unchanged "
+                    "received no call, and no name received two calls in one load. Bounded random exploration over small pools, not a proof."),
+        level_note=("trusts the ~60-line reference (validity predicate, revision gate, replay map) and proto.Equal/proto.Clone for comparing messages; the "
+                    "reference validity predicate is cross-checked against target.Validate on every generated configuration; replay is strict "
+                    "(Add only for a name not in the set, Update/Delete only for a name in it, as the Handler documentation words them); "
+                    "single goroutine, order of calls within one load is not constrained; loaded messages are never mutated after Load (Load keeps the caller's pointer)"),
+        rule=("cases are sequences of 1-12 loads on a fresh target.Config (NewConfig, NewConfigWithBase(nil) or NewConfigWithBase(valid base)); every load is "
+              "Load(nil), or a configuration obtained from the current accepted configuration (or from a complete random configuration) by 0-4 edits "
+              "(request body edited / renamed / added / dropped; target added / removed / re-pointed / address, credentials, meta, dialer edited; instance id, "
+              "config meta; invalid variants: empty name, nil target, no address, missing request, dangling request) over pools of 5 target names, 3 request "
+              "names x 3 request bodies, 3 address sets, with a revision that is current+{1,2,3,0,-1,-3} or an absolute value (incl. int64 extremes). "
+              "non-trivial = some accepted load changes a request body and re-points or removes a target in the same revision, or a rejected load lies "
+              "between two accepted ones; distinct = distinct hash of the scenario"),
+        assumptions=COMMON + ["base configurations passed to NewConfigWithBase are valid (an invalid base is refused by the constructor and is not part of C17)",
+                              "the caller does not modify a configuration message after handing it to Load / NewConfigWithBase",
+                              "all three Handler callbacks are set (nil callbacks are skipped by the code and cannot be observed)"],
+        parts=[
+            dict(name="random", run="TestC17Random", checks=dict(quick=20000, thorough=100000), shards=dict(quick=1, thorough=16)),
+        ],
+    ),
     "C02": dict(
         engine="cacheprop",
         technique="model-based property testing (rapid): notification histories with adversarial timestamps vs a per-leaf timestamp model",
